@@ -139,6 +139,91 @@ static void* short_repeater(void* a) {
   return NULL;
 }
 
+// final phase (boundary=1): inputs at the edges of the argument types. (a) one-second-class requests around the microsecond /
+// nanosecond carries, all started together and judged by the usual duration oracle; (b) very long requests (hours to the largest
+// representable values): the run cannot wait for them, but it can see one come back - any return is early. They are still asleep
+// when the process ends.
+static _Atomic int bd_done;
+static void* bd_short(void* a) {
+  fb_slot_t* s = (fb_slot_t*)a;
+  const int k = (int)s->c;
+  struct timespec a0, b0, rq;
+  long req_ns = 0;
+  clock_gettime(CLOCK_MONOTONIC, &a0);
+  switch (k) {
+    case 0: rq.tv_sec = 0; rq.tv_nsec = 999999999; req_ns = 999999999; nanosleep(&rq, NULL); break;
+    case 1: rq.tv_sec = 0; rq.tv_nsec = 999999001; req_ns = 999999001; nanosleep(&rq, NULL); break;
+    case 2: rq.tv_sec = 0; rq.tv_nsec = 999999000; req_ns = 999999000; nanosleep(&rq, NULL); break;
+    case 3: rq.tv_sec = 1; rq.tv_nsec = 0; req_ns = 1000000000; nanosleep(&rq, NULL); break;
+    case 4: req_ns = 999999000; usleep(999999); break;
+    case 5: req_ns = 1000000000; usleep(1000000); break;
+    case 6: req_ns = 1000001000; usleep(1000001); break;
+    case 7: req_ns = 1000000000; sleep(1); break;
+    case 8: req_ns = 1000000000; fiber_sleep(1, 0); break;
+    case 9: req_ns = 999999000; fiber_sleep(0, 999999); break;
+    case 10: rq.tv_sec = 0; rq.tv_nsec = 1; req_ns = 1; nanosleep(&rq, NULL); break;
+    default: rq.tv_sec = 0; rq.tv_nsec = 1001; req_ns = 1001; nanosleep(&rq, NULL); break;
+  }
+  clock_gettime(CLOCK_MONOTONIC, &b0);
+  const long el = (long)(b0.tv_sec - a0.tv_sec) * 1000000000L + (b0.tv_nsec - a0.tv_nsec);
+  if (el < req_ns)
+    vp_violation("C09", "sleep:early", "boundary request %d: asked for %ld ns, returned after %ld ns", k, req_ns, el);
+  vp_add(c_sleeps, 1);
+  vp_count("sleep_boundary_requests", 1);
+  atomic_fetch_add(&bd_done, 1);
+  return NULL;
+}
+static void* bd_long(void* a) {
+  fb_slot_t* s = (fb_slot_t*)a;
+  const int k = (int)s->c;
+  static const unsigned secs[] = {4295, 4296, 8590, 86400, 4294968, 4294967, 2147484, 4294967295u};
+  struct timespec a0, b0, rq;
+  const char* what = "";
+  unsigned long long req_s = 0;
+  clock_gettime(CLOCK_MONOTONIC, &a0);
+  if (k < 8) {
+    req_s = secs[k];
+    what = "sleep";
+    sleep(secs[k]);
+  } else if (k < 16) {
+    req_s = secs[k - 8];
+    what = "fiber_sleep";
+    fiber_sleep(secs[k - 8], 0);
+  } else if (k < 24) {
+    req_s = secs[k - 16];
+    what = "nanosleep";
+    rq.tv_sec = (time_t)secs[k - 16];
+    rq.tv_nsec = 0;
+    nanosleep(&rq, NULL);
+  } else {
+    req_s = 4294;
+    what = "usleep(4294967295)";
+    usleep(4294967295u);
+  }
+  clock_gettime(CLOCK_MONOTONIC, &b0);
+  const double el = (double)(b0.tv_sec - a0.tv_sec) + (double)(b0.tv_nsec - a0.tv_nsec) / 1e9;
+  if (el < (double)req_s)
+    vp_violation("C09", "sleep:early", "%s for %llu s returned after %.3f s", what, req_s, el);
+  return NULL;
+}
+static void boundary_phase(void) {
+  int i;
+  scen = 6;
+  atomic_store(&bd_done, 0);
+  for (i = 0; i < 25; ++i) {
+    fb_spawn(bd_long, (void*)(intptr_t)i);
+    vp_count("sleep_very_long_requests_still_asleep_at_exit", 1);
+  }
+  for (i = 0; i < 12; ++i) fb_spawn(bd_short, (void*)(intptr_t)i);
+  fb_slot_t* me = fb_slot_new();
+  atomic_store(&me->where, "C09 one-second-class sleeps");
+  while (atomic_load(&bd_done) < 12 && !vp_violation_count()) usleep(20000);
+  usleep(300000);  // a little longer for a long request that came back early to be seen
+  atomic_store(&me->where, (const char*)0);
+  vp_case();
+  vp_sample("boundary phase: 12 one-second-class requests around the carries judged by duration; 25 requests of 4294 s .. 2^32-1 s were still asleep at the end");
+}
+
 static void* root(void* x) {
   (void)x;
   const int trials = (int)vp_param("trials", 12);
@@ -227,6 +312,11 @@ static void* root(void* x) {
     vp_add(c_trials, 1);
     vp_case();
     if (vp_violation_count()) break;
+  }
+  if (vp_param("boundary", 0) && !vp_violation_count()) {
+    boundary_phase();
+    vp_mark_done();
+    vp_finish();
   }
   return NULL;
 }
